@@ -229,6 +229,18 @@ func TestVerifC10(t *testing.T) {
 					idx = append(idx, n)
 				}
 				idx = append(idx, 1000*N-1, 1000*N, 1000*N+1)
+				if r.Thorough() {
+					// seeded wraps, and indices whose decode time needs 64 bits (senc/saio offsets move with the tfdt box size)
+					rng := r.Rand(int64(10_000 + caseNo))
+					far := (int64(uint64(1)<<32/a.Ref.Dur()) + 2) * N
+					for k := 0; k < 12; k++ {
+						b := (2 + rng.Int63n(3_000_000)) * N
+						idx = append(idx, b-1, b, b+1+rng.Int63n(N))
+					}
+					idx = append(idx, far-1, far, far+1, far+N)
+				} else {
+					idx = append(idx, (int64(uint64(1)<<32/a.Ref.Dur())+2)*N+1)
+				}
 				if !r.Thorough() && len(idx) > 9 {
 					idx = append(idx[:5], idx[len(idx)-4:]...)
 				}
